@@ -72,6 +72,9 @@ func (w *world) judge(c *vh.Case, o observation) {
 	if o.dialed && !o.ctxHasDeadline && (!o.deadlineArmed || o.deadlineIn <= 0 || o.deadlineIn > 2*time.Minute+5*time.Second) {
 		c.Oracle("stream-deadline-not-armed:"+o.rpc, "%s: the context has no deadline and the client opened its stream without a deadline within the default stream timeout (armed=%v, in %v): a host that goes silent blocks the call forever", tag, o.deadlineArmed, o.deadlineIn)
 	}
+	if o.panicked != "" {
+		c.Oracle("renter-call-panics:"+o.rpc+":"+o.f.label(), "%s: the renter's call panicked instead of returning an error: %s", tag, firstLine(fmt.Errorf("%s", o.panicked)))
+	}
 	if o.hung {
 		c.Oracle("renter-hangs-on-silent-host:"+o.rpc+":"+o.f.label(), "%s: the peer went silent and the clock passed every applicable timeout, but the call did not return: its reserved outputs stay reserved (they were only released after the harness closed the stream by force)", tag)
 	}
